@@ -19,9 +19,13 @@ Proof. intros H Hv; pose proof (pow2_le a b H); lia. Qed.
 
 (* masks written as `x & ((1<<w)-1)` anywhere in a generated definition are truncations; nested ones collapse:
    proofs below normalise with this instead of depending on how many times the Python code masks *)
+Lemma mod_shiftl_trunc x w : 0 <= w -> x mod Z.shiftl 1 w = trunc w x.
+Proof. intros; rewrite Z.shiftl_1_l, trunc_mod by lia; reflexivity. Qed.
+
 Ltac norm_trunc :=
   unfold Wire_put, Wire_prepare, py_shl, py_shr in *; cbv zeta;
   repeat match goal with |- context [Z.land ?x (Z.shiftl 1 ?w - 1)] => change (Z.land x (Z.shiftl 1 w - 1)) with (trunc w x) end;
+  rewrite ?mod_shiftl_trunc by lia;        (* `x % (1<<w)` is the same truncation *)
   rewrite ?trunc_idem by lia.
 
 Section Sound.
@@ -256,7 +260,7 @@ Proof.
   destruct Ha as [Hwa Hva], Hb as [Hwb Hvb].
   rewrite !c2_to_signed_spec by lia. norm_trunc. rewrite vtrunc_vtrunc_le by lia. rewrite !vtrunc_trunc by lia.
   rewrite <- (trunc_trunc_le (snd r) w) by lia. rewrite trunc_mul_l, trunc_mul_r by lia.
-  rewrite trunc_trunc_le by lia. reflexivity.
+  rewrite trunc_trunc_le by lia. f_equal; ring.
 Qed.
 End Sound.
 
